@@ -286,6 +286,19 @@ pub fn generate(cx: &super::GenCtx) -> Vec<Plan> {
     let n = if thorough { rng.range(1, 40) } else { rng.range(1, 20) };
     let eof_at = if rng.chance(1, 3) { Some(rng.below(n + 1)) } else { None };
     let mut script = vec![];
+    // One session in a thousand first fills the process-wide cache with a real search, so that
+    // commands whose handling depends on how much is cached (setoption Hash, ucinewgame ...) meet
+    // a cache that is not nearly empty.
+    if rng.chance(1, 1000) {
+        script.push(Action::send(format!("position fen {}", rng.pick(gen::BENCH_FENS))));
+        script.push(Action::send(format!("go nodes {}", rng.range(450_000, 700_000))));
+        script.push(Action::WaitBestmove);
+        script.push(Action::send("isready"));
+        for v in [1u64, 2, 16] {
+            script.push(Action::send(format!("setoption name Hash value {v}")));
+            script.push(Action::send("isready"));
+        }
+    }
     let mut last_position: Option<Vec<String>> = None;
     for i in 0..n {
         if eof_at == Some(i) {
@@ -335,8 +348,8 @@ pub fn generate(cx: &super::GenCtx) -> Vec<Plan> {
         script.push(Action::send(if rng.chance(1, 6) { "quit now" } else { "quit" }));
     }
     plan.script = script;
-    plan.step_cap = 1_500_000;
-    plan.tick_cap = 6_000_000;
+    plan.step_cap = 4_000_000;
+    plan.tick_cap = 12_000_000;
     gen::machine(&mut plan, &mut rng, 5_000, false);
     gen::schedule(&mut plan, &mut rng, 2_000);
     vec![plan]
